@@ -151,7 +151,8 @@ def run(ctx, progs):
                 ok = bool(r)
                 detail = ""
                 for _pp, rt0 in r:
-                    rt = deep_strip(rt0)
+                    from ..mir import ordering_pred_as_cmp
+                    rt = deep_strip(ordering_pred_as_cmp(rt0))      # a.cmp(&b).is_eq() is a == b
                     one = False
                     if rt[0] == 'bin' and rt[1] == 'Eq':
                         (ta, ra), (tb, rb) = tag_of(rt[2], wrappers, tn_ok), tag_of(rt[3], wrappers, tn_ok)
